@@ -25,6 +25,55 @@ func main() {
 		os.Exit(cmdCheck(os.Args[2:]))
 	case "replay":
 		os.Exit(cmdReplay(os.Args[2:]))
+	case "replayall":
+		// dvc replayall <repo> [property]: runs every function under contract on solver-generated inputs that satisfy its
+		// precondition and evaluates its postconditions on what the real code did (no violation needed to start it)
+		env, err := vc.Load(os.Args[2], "/verif/contracts")
+		if err != nil {
+			fmt.Fprintln(os.Stderr, err)
+			os.Exit(2)
+		}
+		nw := 0
+		for _, t := range env.ContractTargets() {
+			if len(os.Args) > 3 && !contains(t.Props, os.Args[3]) {
+				continue
+			}
+			prop := "ALL"
+			if len(t.Props) > 0 {
+				prop = t.Props[0]
+			}
+			fr := replayFunction("/verif", os.Args[2], prop, t.Rel, t.Key, env, nil)
+			st := fr.Status
+			if len(st) > 300 {
+				st = st[:300]
+			}
+			fmt.Printf("%s %s %s: witnesses=%d %s\n", prop, t.Rel, t.Key, len(fr.Witnesses), st)
+			for _, w := range fr.Witnesses {
+				nw++
+				fmt.Println("  WITNESS", w.Clause, w.Panic)
+			}
+		}
+		fmt.Println("total witnesses:", nw)
+	case "replayfn":
+		// dvc replayfn <repo> <property> <package dir relative to the repository, "" for the root> <function key>
+		env, err := vc.Load(os.Args[2], "/verif/contracts")
+		if err != nil {
+			fmt.Fprintln(os.Stderr, err)
+			os.Exit(2)
+		}
+		var vs []*vc.ObResult
+		for _, n := range os.Args[6:] {
+			vs = append(vs, &vc.ObResult{Name: n, Verdict: "undecided"})
+		}
+		fr := replayFunction("/verif", os.Args[2], os.Args[3], os.Args[4], os.Args[5], env, vs)
+		fmt.Println(fr.Status)
+		for _, w := range fr.Witnesses {
+			b, _ := json.Marshal(w)
+			if len(b) > 1500 {
+				b = b[:1500]
+			}
+			fmt.Println("WITNESS", w.Clause, w.Panic, string(b))
+		}
 	case "bind":
 		// record the variable names of all functions under contract (run on the unchanged tree, see sync_contracts.sh)
 		env, err := vc.Load("/repo", "/verif/contracts")
